@@ -599,6 +599,10 @@ pub struct ConnScript {
     pub grants: Vec<(usize, u32)>,
     pub progs: Vec<Prog>,
     pub start_ms: u32,
+    /// with gated writes: once `grants` is exhausted no further capacity is ever granted (a peer
+    /// that stops reading for good) instead of capacity becoming unlimited
+    #[serde(default)]
+    pub writes_blocked_after_grants: bool,
 }
 
 impl ConnScript {
